@@ -107,6 +107,9 @@ var funcSpecs = []funcSpec{
 	{rel: "", name: "ParseIdentities", abstract: []string{"age.ParseX25519Identity"}, opaque: map[string]string{"Identity": "κ", "X25519Identity": "κ"}, errInts: true},
 	{rel: "armor", name: "(*armoredReader).setErr"},
 	{rel: "armor", name: "(*armoredReader).Read", fuel: map[int]string{1: "(Go.len (r).r).toNat + 1"}},
+	{rel: "internal/format", name: "(*WrappedBase64Encoder).writeWrapped", opaque: map[string]string{"io.Writer": "δ", "io.WriteCloser": "ω"},
+		fuel: map[int]string{1: "(Go.len p).toNat + 1"}},
+	{rel: "internal/format", name: "(*WrappedBase64Encoder).LastLineIsEmpty", opaque: map[string]string{"io.Writer": "δ", "io.WriteCloser": "ω"}},
 	{rel: "", name: "ParseRecipients", abstract: []string{"age.ParseX25519Recipient"}, opaque: map[string]string{"Recipient": "κ", "X25519Recipient": "κ"}, errInts: true},
 }
 
@@ -274,6 +277,9 @@ func leanTypeOf(t types.Type) (string, bool) {
 		}
 		if nt.Obj().Pkg() != nil && nt.Obj().Pkg().Path() == "strings" && nt.Obj().Name() == "Builder" {
 			return "(List UInt8)", true
+		}
+		if nt.Obj().Pkg() != nil && nt.Obj().Pkg().Path() == "bytes" && nt.Obj().Name() == "Buffer" {
+			return "(List UInt8)", true // the unread bytes
 		}
 	}
 	{
@@ -873,6 +879,12 @@ func (c *fctx) binary(at ast.Node, X ast.Expr, op token.Token, Y ast.Expr, opT t
 			c.fail(at, "arithmetic on %s", opT)
 		}
 		return "(" + c.expr(X) + " " + op.String() + " " + c.expr(Y) + ")"
+	case token.REM:
+		// x % c for a non-zero constant c on int: Go truncates towards zero
+		if tv := c.info().Types[Y]; k == "int" && tv.Value != nil && tv.Value.String() != "0" {
+			return "(Int.tmod " + c.expr(X) + " " + c.expr(Y) + ")"
+		}
+		c.fail(at, "%% with a divisor that is not a non-zero constant")
 	case token.AND, token.OR, token.XOR, token.AND_NOT:
 		if k != "u8" && k != "u32" {
 			c.fail(at, "bit operation on %s", opT)
@@ -1041,6 +1053,9 @@ func (c *fctx) call(x *ast.CallExpr) string {
 			if sel, ok := ast.Unparen(x.Fun).(*ast.SelectorExpr); ok {
 				if s := c.info().Selections[sel]; s != nil && isBuilder(s.Recv()) && o.Name() == "String" {
 					return c.expr(sel.X)
+				}
+				if s := c.info().Selections[sel]; s != nil && isBytesBuffer(s.Recv()) && o.Name() == "Len" {
+					return "(Go.len " + c.expr(sel.X) + ")"
 				}
 			}
 			if o.Pkg().Path() == "bytes" && o.Name() == "ContainsAny" {
@@ -2089,6 +2104,10 @@ func (c *fctx) stmt(e *emitter, ind int, s ast.Stmt) {
 			return
 		}
 		if sel, ok := ast.Unparen(call.Fun).(*ast.SelectorExpr); ok {
+			if sn := c.info().Selections[sel]; sn != nil && isBytesBuffer(sn.Recv()) && sn.Obj().Name() == "Write" {
+				c.assignTo(e, ind, sel.X, "("+c.expr(sel.X)+" ++ "+c.sliceOrNil(call.Args[0])+")", false)
+				return
+			}
 			if sn := c.info().Selections[sel]; sn != nil && isBuilder(sn.Recv()) {
 				id, ok := ast.Unparen(sel.X).(*ast.Ident)
 				if !ok {
